@@ -1,7 +1,7 @@
 #!/bin/bash
 # Run once after a fresh restore, offline: pre-builds the framework (and warms the Go build cache).
 set -u
-cd /verif || exit 2
+cd "$(dirname "$0")" || exit 2
 . ./env.sh
 cp -f /repo/go.sum ./go.sum 2>/dev/null || true
 "$VF_GO" build -o "$VF_WORK/vf" ./cmd/vf || exit 2
